@@ -94,6 +94,13 @@ def fmtFloat (x : Float) (digits : Nat) : String :=
   let (n, d) := floatRat x
   fmtRat n d digits
 
+/-- `printf("%<width>.<digits>f", x)` for any finite or infinite `x` (sign from the sign bit, `inf` for infinities) -/
+def fmtFloatSigned (x : Float) (digits : Nat) : String :=
+  let neg := x.toBits >>> 63 == 1
+  let ax := Float.ofBits (x.toBits &&& (0x7fffffffffffffff : UInt64))
+  let body := if ax.isInf then "inf" else if ax.isNaN then "nan" else fmtFloat ax digits
+  (if neg then "-" else "") ++ body
+
 def chunks (w : Nat) (s : List Char) : List Line :=
   if h : w = 0 ∨ s = [] then [] else
     s.take w :: chunks w (s.drop w)
